@@ -2,6 +2,7 @@
   Kernel tie: `OrderBookParticipation.maxWithdrawalAmount` (x/orderbook/types/participation.go) = `Part.maxWithdraw`.
 -/
 import Sge.Gen.Kernels
+import SgeProofs.Lemmas.KernelsTie
 import Sge.Core.Orderbook
 namespace Sge.KernelsTie
 open Sge Sge.Core Sge.Gen.Kernels
@@ -12,8 +13,7 @@ theorem krn_tie_MaxWithdraw (p : Part) :
     orderbook_OrderBookParticipation_maxWithdrawalAmount p.crl p.crMaxLoss = p.maxWithdraw := by
   first
     | rfl
-    | (unfold orderbook_OrderBookParticipation_maxWithdrawalAmount Part.maxWithdraw maxI minI
-       (repeat' split) <;> omega)
+    | (unfold orderbook_OrderBookParticipation_maxWithdrawalAmount Part.maxWithdraw; krn_close)
 
 example : orderbook_OrderBookParticipation_maxWithdrawalAmount 100 30 = 70 ∧
     orderbook_OrderBookParticipation_maxWithdrawalAmount 100 (-30) = 100 := by decide +kernel
